@@ -301,10 +301,17 @@ def gen_recv(rng, idx):
             if q == 2 and r.random() < 0.7: s.add(op="wend", ec="ok")          # PUBREC went through; the PUBCOMP write is pending
             s.add(op="fault", ec=r.choice(["reset", "broken_pipe"]))
             s.add(op="connack", sp=r.choice([0, 0, 1]))
-            s.add(op="advance", ms=r.choice([1, 2000, 4000]))
-            s.add(op="set", auto_write=1)
-            s.add(op="advance", ms=3000)
-            nb += 1; s.add(op="bpub", qos=2, msg="x%d" % nb)
+            if r.random() < 0.5:
+                s.add(op="advance", ms=r.choice([1, 2000, 4000]))
+                s.add(op="set", auto_write=1)
+                s.add(op="advance", ms=3000)
+                nb += 1; s.add(op="bpub", qos=2, msg="x%d" % nb)
+            else:
+                # ... and the broker's PUBREL for it is read before the client's PUBREC write has completed (finding F15)
+                s.add(op="advance", ms=4000); s.add(op="wend", ec="ok")        # reconnected: the CONNECT write goes through
+                nb += 1; s.add(op="bpub", qos=2, msg="x%d" % nb)
+                s.add(op="wdeliver"); s.add(op="wend", ec="ok")
+                s.add(op="set", auto_write=1)
             if r.random() < 0.5: nb += 1; s.add(op="bpub", qos=r.choice([1, 2]), msg="x%d" % nb)
         elif k < 0.82:
             s.add(op="set", auto_write=0)
